@@ -325,18 +325,21 @@ PS(i) == IF i <= 1 THEN 0 ELSE PS(i - 1) + AbsI(geo[i] - geo[i - 1])      \* d[i
 
 (* ConstrainedStateSpace::geodesicInterpolate(geodesic, t = q / TDen): 1-based index returned.  *)
 (*   if (last <= eps) return geodesic[0];                                        *)
-(*   i = 0; while (i < n - 1 && d[i] / last <= t) i++;                           *)
-(*   t1 = d[i] / last - t; t2 = (i <= n - 2) ? d[i + 1] / last - t : 1;          *)
-(*   return (t1 < t2 || |t1 - t2| < eps) ? geodesic[i] : geodesic[i + 1];        *)
+(*   i = 0; while (i < n - 1 && d[i] / last <= t) i++;   -- first state beyond t  *)
+(*   t1 = (i > 0) ? t - d[i - 1] / last : 1;  t2 = d[i] / last - t;              *)
+(*   return (i > 0 && (t1 < t2 || |t1 - t2| < eps)) ? geodesic[i - 1] : geodesic[i];  *)
+(* (the closer of the two stored states that bracket t; as repaired in /repo -   *)
+(* the pinned code compared the states i and i + 1 and so returned the first     *)
+(* state beyond t, geodesic[1] for t = 0)                                        *)
 (* (quotients of small integers against a dyadic t: the rounded comparison is   *)
 (* the exact one)                                                               *)
 Beyond(i, q) == i = N \/ PS(i) * TDen > q * PS(N)
 GIndex(q) ==
     IF PS(N) = 0 THEN 1
     ELSE LET i == CHOOSE i \in 1..N : Beyond(i, q) /\ \A j \in 1..(i - 1) : ~Beyond(j, q)
-             t1 == PS(i) * TDen - q * PS(N)
-             t2 == IF i <= N - 1 THEN PS(i + 1) * TDen - q * PS(N) ELSE TDen * PS(N)
-         IN  IF t1 <= t2 THEN i ELSE i + 1
+             t1 == IF i > 1 THEN q * PS(N) - PS(i - 1) * TDen ELSE TDen * PS(N)
+             t2 == PS(i) * TDen - q * PS(N)
+         IN  IF i > 1 /\ t1 <= t2 THEN i - 1 ELSE i
 
 (* ConstrainedStateSpace::interpolate(from, to, t): uses discreteGeodesic(from, to, true, ..)   *)
 (* and returns `from` when that fails.  TangentBundleStateSpace::geodesicInterpolate projects   *)
